@@ -95,25 +95,39 @@ def FaultSpent (s : State) : Prop := s.fault = 0 ∨ s.fault ≤ s.calls
 
 /-! ### the apiserver call counter -/
 
+theorem api_calls_le (s : State) : s.calls ≤ s.api.1.calls := by
+  simp only [State.api]
+  split <;> omega
+
 theorem api_frame (s : State) : Frame s s.api.1 := by
-  refine ⟨rfl, rfl, rfl, rfl, rfl, rfl, rfl, rfl, rfl, rfl, rfl, rfl, rfl, rfl, ?_⟩
-  simp [State.api]
+  refine ⟨rfl, rfl, rfl, rfl, rfl, rfl, rfl, rfl, rfl, rfl, rfl, rfl, rfl, rfl, api_calls_le s⟩
 
 @[simp] theorem api_alloc (s : State) : s.api.1.alloc = s.alloc := rfl
 @[simp] theorem api_free (s : State) : s.api.1.free = s.free := rfl
 @[simp] theorem api_store (s : State) : s.api.1.store = s.store := rfl
 @[simp] theorem api_pools (s : State) : s.api.1.pools = s.pools := rfl
 @[simp] theorem api_fault (s : State) : s.api.1.fault = s.fault := rfl
-@[simp] theorem api_calls (s : State) : s.api.1.calls = s.calls + 1 := rfl
+@[simp] theorem api_crashMode (s : State) : s.api.1.crashMode = s.crashMode := rfl
+
+/-- without a crash plan a call just counts -/
+theorem api_calls (s : State) (h : s.crashMode = false) : s.api.1.calls = s.calls + 1 := by
+  simp [State.api, h]
 
 theorem api_ok_of_spent {s : State} (h : FaultSpent s) : s.api.2 = false := by
   unfold FaultSpent at h
   simp only [State.api, beq_eq_false_iff_ne, ne_eq]
   omega
 
-theorem api_spent (s : State) (h : FaultSpent s ∨ s.api.2 = true) : FaultSpent s.api.1 := by
+/-- after the faulted call (no crash plan), or once the fault is behind us, no later call fails -/
+theorem api_spent (s : State) (h : FaultSpent s ∨ (s.crashMode = false ∧ s.api.2 = true)) : FaultSpent s.api.1 := by
   unfold FaultSpent at *
-  simp only [State.api, beq_iff_eq] at *
-  omega
+  rcases h with h | ⟨hc, h⟩
+  · have := api_calls_le s
+    have hf : s.api.1.fault = s.fault := rfl
+    rw [hf]; omega
+  · have h1 := api_calls s hc
+    have hf : s.api.1.fault = s.fault := rfl
+    simp only [State.api, beq_iff_eq] at h
+    rw [hf, h1]; omega
 
 end Galaxy.Plugin
